@@ -433,10 +433,10 @@ func ruleHeaderCrc(r *Report) {
 		if fn == nil {
 			continue
 		}
-		mk := CallsIn(fn, Keys("hash/crc32.MakeTable"))
 		key := rule + "/" + k + "/table"
+		mk := crcTableSites(p, fn)
 		if len(mk) != 1 {
-			r.Bad(rule, key, fn.Pos(), "header checksum is not crc32.New(crc32.MakeTable(const))")
+			r.Bad(rule, key, fn.Pos(), "header checksum is not crc32 over crc32.MakeTable(const) (directly or through a package variable initialised once)")
 			continue
 		}
 		if c, ok := mk[0].Call().Common().Args[0].(*ssa.Const); ok {
@@ -459,9 +459,21 @@ func ruleHeaderCrc(r *Report) {
 		key := rule + "/recordio.fillRecordHeaderV4/covers-four-fields"
 		ws, werr := emitSequence(w)
 		var wr []Site
+		fed := map[ssa.Instruction]ssa.Value{} // the bytes fed to the checksum, per feeding call
 		eachInstr(w, func(s Site) {
-			if c, ok := s.Instr.(*ssa.Call); ok && c.Call.IsInvoke() && c.Call.Method.Name() == "Write" && typeShort(c.Call.Value.Type()) == "hash.Hash32" {
+			c, ok := s.Instr.(*ssa.Call)
+			if !ok {
+				return
+			}
+			if c.Call.IsInvoke() && c.Call.Method.Name() == "Write" && typeShort(c.Call.Value.Type()) == "hash.Hash32" {
 				wr = append(wr, s)
+				fed[s.Instr] = c.Call.Args[0]
+			} else if ck := CalleeKey(c); ck == "hash/crc32.Checksum" {
+				wr = append(wr, s)
+				fed[s.Instr] = c.Call.Args[0]
+			} else if ck == "hash/crc32.Update" {
+				wr = append(wr, s)
+				fed[s.Instr] = c.Call.Args[2]
 			}
 		})
 		ok := werr == "" && len(ws) == 5 && len(wr) == 1
@@ -477,9 +489,29 @@ func ruleHeaderCrc(r *Report) {
 			})
 			ok = s3.Instr != nil && s4.Instr != nil && precedes(s3, wr[0]) && precedes(wr[0], s4)
 			// fed bytes[:off]: a Slice of the buffer parameter from index 0
-			if sl, isS := wr[0].Call().Common().Args[0].(*ssa.Slice); !isS || sl.Low != nil || sl.X != ssa.Value(w.Params[0]) {
+			if sl, isS := fed[wr[0].Instr].(*ssa.Slice); !isS || sl.Low != nil || sl.X != ssa.Value(w.Params[0]) {
 				ok = false
 			}
+		}
+		// the digest state is private to the call: a digest shared between writers (package variable, field) is reset and
+		// fed by concurrent writers of different files at the same time and stores a checksum built from both headers
+		dkey := rule + "/recordio.fillRecordHeaderV4/digest-local"
+		shared := false
+		for _, s := range wr {
+			c := s.Instr.(*ssa.Call)
+			if !c.Call.IsInvoke() {
+				continue // crc32.Checksum / crc32.Update: pure
+			}
+			if cc, isCall := c.Call.Value.(*ssa.Call); !isCall || CalleeKey(cc) != "hash/crc32.New" {
+				shared = true
+			}
+		}
+		if len(wr) == 0 {
+			r.Missing(rule, dkey, "no checksum feed in fillRecordHeaderV4")
+		} else if shared {
+			r.Bad(rule, dkey, wr[0].Pos(), "the header checksum is computed with a digest that outlives the call (not created by crc32.New in fillRecordHeaderV4): writers of different files running in different goroutines interleave Reset/Write/Sum32 and store a wrong checksum, which the native reader rejects")
+		} else {
+			r.OK(rule, dkey, wr[0].Pos(), "digest created per header (or pure crc32.Checksum)")
 		}
 		if ok {
 			r.OK(rule, key, w.Pos(), "crc over bytes[:off] after field 4, before field 5")
@@ -541,6 +573,71 @@ func ruleHeaderCrc(r *Report) {
 				r.Bad(rule, key, rd.Pos(), "a header whose checksum does not match can be returned as valid, or the mismatch does not yield HeaderChecksumMismatchErr")
 			} else {
 				r.OK(rule, key, rd.Pos(), "mismatch → HeaderChecksumMismatchErr; success only via the equal edge")
+			}
+		}
+	}
+	// the stored checksum is the one field its own CRC cannot cover: its varint must be checked for canonical length
+	if rd := p.Func("recordio.readRecordHeaderV4"); rd != nil {
+		key := rule + "/recordio.readRecordHeaderV4/checksum-field-canonical"
+		var stored *ssa.Call // the ReadUvarint that reads the stored checksum: the last one in the consume sequence
+		for _, s := range CallsIn(rd, Keys("encoding/binary.ReadUvarint")) {
+			c := s.Instr.(*ssa.Call)
+			if stored == nil || reachableFromSite(siteOf(stored), s) {
+				stored = c
+			}
+		}
+		if stored == nil {
+			r.Missing(rule, key, "no ReadUvarint in readRecordHeaderV4")
+		} else {
+			fromStored := func(v ssa.Value) bool {
+				return valueDependsOn(v, func(x ssa.Value) bool {
+					ex, ok := x.(*ssa.Extract)
+					return ok && ex.Tuple == ssa.Value(stored) && ex.Index == 0
+				})
+			}
+			fromCount := func(v ssa.Value) bool {
+				return valueDependsOn(v, func(x ssa.Value) bool {
+					c, ok := x.(*ssa.Call)
+					return ok && strings.HasSuffix(CalleeKey(c), "checksumByteReader.Count")
+				})
+			}
+			good := false
+			for _, b := range liveBlocks(rd) {
+				if len(b.Instrs) == 0 {
+					continue
+				}
+				iff, ok := b.Instrs[len(b.Instrs)-1].(*ssa.If)
+				if !ok {
+					continue
+				}
+				bo, ok := iff.Cond.(*ssa.BinOp)
+				if !ok {
+					continue
+				}
+				if !((fromStored(bo.X) && fromCount(bo.Y)) || (fromStored(bo.Y) && fromCount(bo.X))) {
+					continue
+				}
+				// one edge fails, success only through the other
+				for i, su := range b.Succs {
+					if !endsInFailingReturn(su) {
+						continue
+					}
+					removed := map[Edge]bool{{b, b.Succs[1-i]}: true}
+					reach := false
+					for _, nr := range nilReturns(rd) {
+						if siteReachable(nr, removed) {
+							reach = true
+						}
+					}
+					if !reach {
+						good = true
+					}
+				}
+			}
+			if good {
+				r.OK(rule, key, stored.Pos(), "the number of bytes the stored checksum occupied is compared with the shortest encoding of its value; a mismatch fails")
+			} else {
+				r.Bad(rule, key, stored.Pos(), "the stored checksum varint is accepted in over-long form: setting the continuation bit of its last byte (a single-byte header alteration) makes the header swallow the first payload byte when that byte is 0x00; the value is unchanged, the comparison passes and the payload is returned shifted by one byte, without error (input: payload \"\\x00…\" whose header crc is >= 2^28)")
 			}
 		}
 	}
@@ -867,4 +964,49 @@ func ruleNilFlag(r *Report) {
 	if n == 0 {
 		r.Missing(rule, rule+"/callers", "no caller of readRecordHeaderV3/V4 found")
 	}
+}
+
+// crcTableSites: the crc32.MakeTable calls that produce the table used by fn's crc32.New / Checksum / Update calls:
+// a MakeTable call in fn itself, or the single initialiser of a package-level table variable that fn loads
+// (a shared table is immutable, unlike a shared digest).
+func crcTableSites(p *Prog, fn *ssa.Function) []Site {
+	mk := CallsIn(fn, Keys("hash/crc32.MakeTable"))
+	if len(mk) > 0 {
+		return mk
+	}
+	var out []Site
+	for _, s := range CallsIn(fn, Keys("hash/crc32.New", "hash/crc32.Checksum", "hash/crc32.Update")) {
+		c := s.Call().Common()
+		var tab ssa.Value
+		switch CalleeKey(s.Call()) {
+		case "hash/crc32.New":
+			tab = c.Args[0]
+		default:
+			tab = c.Args[1]
+		}
+		u, ok := tab.(*ssa.UnOp)
+		if !ok || u.Op != token.MUL {
+			continue
+		}
+		g, ok := u.X.(*ssa.Global)
+		if !ok {
+			continue
+		}
+		// all stores to g in the module: exactly one, in a package initialiser, of a MakeTable result
+		var stores []Site
+		for _, f := range p.ModuleFuncs() {
+			eachInstr(f, func(t Site) {
+				if st, ok := t.Instr.(*ssa.Store); ok && st.Addr == ssa.Value(g) {
+					stores = append(stores, t)
+				}
+			})
+		}
+		if len(stores) != 1 || stores[0].Fn.Name() != "init" {
+			continue
+		}
+		if mc, ok := stores[0].Instr.(*ssa.Store).Val.(*ssa.Call); ok && CalleeKey(mc) == "hash/crc32.MakeTable" {
+			out = append(out, siteOf(mc))
+		}
+	}
+	return out
 }
